@@ -163,13 +163,15 @@ func (g *c04Gen) reuseBody(d int, inTx bool, maxKids int) []*c04Node {
 	n := 2 + g.rng.Intn(3)
 	var out []*c04Node
 	var names []int64
+	seenQ := false
 	for i := 0; i < n; i++ {
 		switch r := g.rng.Intn(100); {
 		case r < 40:
 			out = append(out, &c04Node{K: "w", ID: g.id(), Must: true})
-		case r < 65:
+		case r < 65 && !seenQ: // (a Find leaves its FROM clause in the shared Statement; UPDATE … FROM <same table> is rejected by SQLite)
 			out = append(out, &c04Node{K: "u", ID: 1, Must: true})
 		case r < 80:
+			seenQ = true
 			out = append(out, &c04Node{K: "q", Must: true})
 		case r < 90 && inTx:
 			nm := int64(1 + g.rng.Intn(3))
@@ -185,7 +187,17 @@ func (g *c04Gen) reuseBody(d int, inTx bool, maxKids int) []*c04Node {
 	case r < 2 && len(g.known) > 0:
 		out = append(out, &c04Node{K: "d", ID: g.known[g.rng.Intn(len(g.known))], Must: true})
 	case r < 4 && d > 0:
-		out = append(out, &c04Node{K: "blk", Body: g.body(d-1, true, maxKids, false), Out: c04OutDist(g.rng), ID: g.tag(), Must: g.rng.Intn(2) == 0})
+		// a Transaction invoked on the used handle clones its Statement with everything the earlier operations left in it
+		// (Model of the first Create, FROM of a Find): only creates and reads inside
+		blk := &c04Node{K: "blk", Out: c04OutDist(g.rng), ID: g.tag(), Must: g.rng.Intn(2) == 0}
+		for i, m := 0, 1+g.rng.Intn(3); i < m; i++ {
+			if g.rng.Intn(3) == 0 {
+				blk.Body = append(blk.Body, &c04Node{K: "q", Must: true})
+			} else {
+				blk.Body = append(blk.Body, &c04Node{K: "w", ID: g.id(), Must: g.rng.Intn(3) != 0})
+			}
+		}
+		out = append(out, blk)
 	}
 	return out
 }
@@ -536,6 +548,11 @@ func (cr *c04Runner) flush() {
 		}
 		var ops [][]interface{}
 		for _, c := range cr.cases[start:end] {
+			if c04HasEndCommit(c.body) {
+				// Commit() called inside the function is judged end to end only: the empty program stands in
+				ops = append(ops, []interface{}{"tx.run", c.Cfg, []int{}, []int64{}, []interface{}{}, false})
+				continue
+			}
 			ops = append(ops, []interface{}{"tx.run", c.Cfg, c.Mask, c.Initial, c.Body, c.AllowRb})
 		}
 		for _, c := range cr.cases[start:end] {
@@ -550,7 +567,7 @@ func (cr *c04Runner) flush() {
 		// refinement covers: no RollbackTo node, no stale use of a poisoned handle (finding F18), no fault in a ROLLBACK TO
 		for i, c := range cr.cases[start:end] {
 			o := cr.obs[start+i]
-			if o.Stale || o.exec.rbFault || c04HasKind(c.body, "rb") {
+			if o.Stale || o.exec.rbFault || c04HasKind(c.body, "rb") || c04HasKind(c.body, "end") {
 				r.H("spec_vs_real", "outside the fragment")
 				continue
 			}
@@ -559,6 +576,7 @@ func (cr *c04Runner) flush() {
 				r.Violate(Violation{Kind: "correspondence", Suite: "spec", Input: c, Observed: o, Expected: string(outs[end-start+i]), Note: "reference rejects the program"})
 				continue
 			}
+			c04ModelRes(c, o, m)
 			r.H("spec_vs_real", "compared")
 			r.Case("spec", canon(c), len(o.exec.faulted) > 0)
 			real := canon(map[string]interface{}{"store": o.Store, "res": o.Res})
@@ -569,6 +587,11 @@ func (cr *c04Runner) flush() {
 		}
 		for i, c := range cr.cases[start:end] {
 			o := cr.obs[start+i]
+			if c04HasEndCommit(c.body) {
+				r.H("tie", "skipped: Commit() inside the function (end-to-end oracle only)")
+				continue
+			}
+			r.H("tie", "compared")
 			r.CorrCompared++
 			r.Case("tie", canon(c), len(o.exec.faulted) > 0)
 			var m map[string]interface{}
@@ -577,6 +600,7 @@ func (cr *c04Runner) flush() {
 				continue
 			}
 			delete(m, "rbfault")
+			c04ModelRes(c, o, m)
 			real := canon(o)
 			model := canon(m)
 			if real != model {
@@ -636,6 +660,23 @@ func (cr *c04Runner) stats(c *c04Case, o *c04Obs) {
 	}
 	for _, b := range o.exec.blocks {
 		r.H("block_fn_result", map[bool]string{true: b.FnRet, false: "not-run"}[b.FnRan])
+	}
+}
+
+// c04ModelRes: when the value injected into COMMIT is the raw sentinel sql.ErrTxDone (EK = 1) the model's `inj k` of a failed
+// COMMIT and a genuine `txDone` are the same Go value: both sides are compared as "txDone"
+func c04ModelRes(c *c04Case, o *c04Obs, m map[string]interface{}) {
+	if c.EK%c04NCommitErrKinds != 1 {
+		return
+	}
+	res, _ := m["res"].([]interface{})
+	for i, a := range res {
+		var k int
+		if s, ok := a.(string); ok {
+			if _, e := fmt.Sscanf(s, "inj%d", &k); e == nil && k < len(o.Trace) && o.Trace[k] == "C!" {
+				res[i] = "txDone"
+			}
+		}
 	}
 }
 
